@@ -18,10 +18,11 @@ const (
 	plDelimText
 	plLengthField
 	plVarint
+	plText // text codec alone: a string reaches the head as a *strings.Reader (an io.WriterTo)
 	nPipelines
 )
 
-var plNames = []string{"bare", "delimiter", "delimiter+text", "length-field", "varint"}
+var plNames = []string{"bare", "delimiter", "delimiter+text", "length-field", "varint", "text"}
 
 var msgSizes = []int{5, 1, 40, 1023, 1024, 1025, 3000}
 
@@ -68,7 +69,7 @@ func runC09(e *Env) {
 	switch pl {
 	case plBare:
 		carrier = e.P(caString) // every head-accepted carrier
-	case plDelimText:
+	case plDelimText, plText:
 		carrier = caString
 	case plDelimiter:
 		carrier = e.P(caString)
@@ -85,6 +86,8 @@ func runC09(e *Env) {
 		hs = append(hs, frame.LengthFieldCodec(binary.BigEndian, 1<<20, 0, 4, 0, 4))
 	case plVarint:
 		hs = append(hs, frame.VarintLengthFieldCodec(1<<20))
+	case plText:
+		hs = append(hs, format.TextCodec())
 	}
 	writers := 2 + e.P(3)
 	per := 1 + e.P(3)
